@@ -35,19 +35,25 @@ def program(rng, length, share=False):
     cart = type(m).__name__.startswith("Grid")
     vs = [pf.CellVariable(m, rng.random() + np.ones(tuple(m.dims)))]
     cnt = [0]
+    held = {}
 
     def fresh():
         cnt[0] += 1
         return float(cnt[0])
     for _ in range(length):
         v = rng.choice(vs)
-        op = rng.choice(["coef", "coef", "slice", "utility", "periodic", "assign", "assign_slice", "update", "copy",
-                         "arith", "apply", "solve", "solve", "explicit", "newvar"])
+        op = rng.choice(["coef", "coef", "slice", "view", "view", "utility", "periodic", "assign", "assign_slice", "update",
+                         "copy", "arith", "apply", "solve", "solve", "explicit", "newvar"])
         side = getattr(v.BCs, rng.choice(sides))
         if op == "coef":
             side.a = 1.0; side.b = 1.0; side.c = 10.0 + fresh()
         elif op == "slice":
             side.c[tuple(slice(0, 1) for _ in side.c.shape)] = 20.0 + fresh()
+        elif op == "view":
+            # a slice view taken once and held across solves; every later "view" edit of this side writes through it
+            if id(side) not in held:
+                held[id(side)] = (side, side.c[tuple(slice(0, 1) for _ in side.c.shape)])
+            held[id(side)][1][...] = 50.0 + fresh()
         elif op == "utility":
             side.newtonCooling(1.0, 3.0, 30.0 + fresh())
         elif op == "periodic":
